@@ -64,6 +64,7 @@ def decLoadsInj (s : Bool) : (ops : List Op) → Decidable (LoadsInj s ops)
   | .list :: rest => decLoadsInj s rest
   | .tpark _ :: rest => decLoadsInj s rest
   | .tresume _ :: rest => decLoadsInj s rest
+  | .poke _ _ _ :: rest => decLoadsInj s rest
 
 instance (c : Cfg) (s : Bool) (v : Nat) (st : State) (ops : List Op) : Decidable (OnePerKeyAt c s v st ops) :=
   decOnePerKeyAt c s v st ops
@@ -448,6 +449,36 @@ theorem rekey_witness_statestore :
       = .found 1 ⟨some 2, some 1⟩ ∧
     byKey stLease (run stLease init [.create none (some 1) (some 1), .update 1 (some 2) (some 1), .delete 1]) false 1
       = .dangling := by decide
+
+/-- KF-store-alias, state.Store leases / sessions: CreateLease keeps the caller's pointer, so the caller's write
+    `lease.MAC = 2` (no API call: `poke`) changes the stored record; leaseByMAC still files it under MAC 1 — the
+    lookup by MAC 1 answers with a lease whose MAC is 2, the lookup by MAC 2 finds nothing. -/
+theorem alias_witness_statestore :
+    let ops : List Op := [.create none (some 1) (some 1), .poke 1 false (some 2)]
+    ¬ NoRekeyAt stLease false 1 init ops ∧
+    lastObs stLease init (ops ++ [.byKey false 1]) = .found 1 ⟨some 2, some 1⟩ ∧
+    lastObs stLease init (ops ++ [.byKey false 2]) = .none := by
+  decide
+
+/-- KF-store-alias, state.Store subscribers (which store COPIES): GetSubscriber returns the stored record itself; the
+    read-modify-write `s := Get(id); s.NTEID = 2; UpdateSubscriber(s)` writes the stored record before the update
+    compares it with the incoming one, so the update sees no change and leaves subscriberByNTE[1] behind — NTE 1 keeps
+    resolving to a subscriber that holds NTE 2. -/
+theorem alias_witness_statestore_sub :
+    let ops : List Op := [.create none (some 1) (some 1), .poke 1 true (some 2), .update 1 (some 1) (some 2)]
+    ¬ NoRekeyAt stSub true 1 init ops ∧
+    lastObs stSub init (ops ++ [.byKey true 1]) = .found 1 ⟨some 1, some 2⟩ ∧
+    lastObs stSub init (ops ++ [.delete 1, .byKey true 1]) = .dangling := by
+  decide
+
+/-- what the unchanged code DOES guarantee for subscribers: an update through a fresh or a detached object (no write
+    through an aliasing pointer) re-indexes — the same history without the `poke` leaves no stale entry. -/
+example :
+    lastObs stSub init [.create none (some 1) (some 1), .update 1 (some 1) (some 2), .update 1 (some 1) (some 3),
+      .byKey true 2] = .none ∧
+    lastObs stSub init [.create none (some 1) (some 1), .update 1 (some 1) (some 2), .update 1 (some 1) (some 3),
+      .byKey true 3] = .found 1 ⟨some 1, some 3⟩ := by
+  decide
 
 /-- KF-index-rekey, subscriber.Manager: a second AssignAddress leaves byIP[old] behind; after TerminateSession the old
     address points to nothing (GetSessionByIP answers (nil, true)). -/
